@@ -327,7 +327,20 @@ func confirmCrash(prop, tier string, seed uint64, p *part, idx int, first *worke
 	kind, msg := crashKind(wo)
 	// frames of plenc in the crash?
 	if !strings.Contains(wo.stderr, "github.com/philpearl/plenc") && kind == "fatal" && !strings.Contains(wo.stderr, "out of memory") {
-		return nil, fmt.Errorf("worker crash at %s index %d without plenc frames: %s", p.Name, idx, tail(wo.stderr, 3000))
+		// The index kills a fresh process too, but not inside plenc. If it is the Go runtime finding
+		// the heap damaged (a pointer into freed memory, a bad pointer in a scanned object, a fault in
+		// the collector) the damage was done earlier by code that writes through unsafe pointers -
+		// the code under test; the harness does not crash like that on the unchanged tree.
+		damaged := false
+		for _, key := range []string{"found pointer to free object", "found bad pointer", "bad pointer in", "unexpected fault address", "fatal error: fault", "heapBitsSetType", "sweep increased allocation count", "marking free object", "unexpected signal during runtime execution"} {
+			if strings.Contains(wo.stderr, key) {
+				damaged = true
+			}
+		}
+		if !damaged {
+			return nil, fmt.Errorf("worker crash at %s index %d without plenc frames: %s", p.Name, idx, tail(wo.stderr, 3000))
+		}
+		msg += " (no plenc frame on the crashing stack: the runtime found memory damaged by an earlier operation of this run)"
 	}
 	// obtain the scenario for the replay file
 	var sc *props.Scenario
@@ -544,7 +557,7 @@ func runParent(prop, tier string) int {
 		fmt.Fprintf(os.Stderr, "HARNESS ERROR: %.0f%% of generated operations had no solo oracle: the workload is degenerate\n", frac*100)
 		return 2
 	}
-	if n := unconfirmedDeaths.Load(); n > 8 {
+	if n := unconfirmedDeaths.Load(); n > 8 && newViol == 0 {
 		fmt.Fprintf(os.Stderr, "HARNESS ERROR: %d workers died or hung without the index reproducing alone\n", n)
 		return 2
 	}
